@@ -353,6 +353,13 @@ def pool_for(kind):
                                                                                       ("None", None), ("object()", specrt.Witness())]
     if kind == "newobj":
         return [("<new instance>", NEW)]
+    if kind == "absranges":
+        opts = [set(), {"a-z"}, {"a-c", "x-z"}, {"0-9", "A-F"}, {"!-\\/"}, {"\\[-\\]", "a-b"}, {"b-d", "k-m", "0-3"}]
+        return [(repr(sorted(o)), o) for o in opts]
+    if kind == "abschars":
+        opts = [set(), {"a"}, {"a", "b"}, {"a", "b", "c"}, {"a", "c", "e"}, {"_", "\\-", "\\^"}, {"0", "1", "2", "x"}, {"d", "e", "f", "h", "i"},
+                {"z", "y", "a", "b"}, {"\\]", "\\\\", "\\["}, {"n", "o", "q", "r", "s", "m"}]
+        return [(repr(sorted(o)), o) for o in opts]
     if kind == "classobj":
         n = ns()
         return [(e, eval(e, n)) for e in CLASS_WITNESSES]
